@@ -221,7 +221,7 @@ func Run(c *Ctx, sc *Scn) (evs []trace.Ev, note string) {
 	}
 	if !stable {
 		c.Unstable.Add(1)
-		return []trace.Ev{{"ev": "reset", "kind": sc.Kind, "inp": [][]int{}}}, "unstable segmentation: skipped"
+		return []trace.Ev{{"ev": "reset", "kind": sc.Kind, "inp": [][]int{}, "carriers": [][]int{}}}, "unstable segmentation: skipped"
 	}
 	inp := [][]int{}
 	for i, f := range facts {
@@ -231,7 +231,19 @@ func Run(c *Ctx, sc *Scn) (evs []trace.Ev, note string) {
 		}
 		inp = append(inp, []int{c.gid(f.G), f.W, b2i(f.Ws), b2i(f.Nl), b2i(f.Lt), b2i(f.Gl), st})
 	}
-	evs = append(evs, trace.Ev{"ev": "reset", "kind": sc.Kind, "inp": inp})
+	// "carriers": clusters that begin with white space but are not white space (an isolated accent
+	// on a space), with the id of what remains when the leading white space is taken away
+	carriers := [][]int{}
+	for _, f := range facts {
+		if f.Ws {
+			continue
+		}
+		core := strings.TrimLeftFunc(f.G, unicode.IsSpace)
+		if core != f.G && core != "" {
+			carriers = append(carriers, []int{c.gid(f.G), c.gid(core)})
+		}
+	}
+	evs = append(evs, trace.Ev{"ev": "reset", "kind": sc.Kind, "inp": inp, "carriers": carriers})
 	bound := len(facts) + 2
 	total := 0
 	for _, f := range facts {
@@ -392,6 +404,8 @@ func classGrapheme(cls byte, i int) string {
 		return "👍🏽"
 	case 'P':
 		return "！"
+	case 'A': // an isolated accent: a visible cluster that begins with a space
+		return " \u0301"
 	}
 	panic("class")
 }
@@ -479,7 +493,7 @@ func Random(rng *rand.Rand, kind string) *Scn {
 				cls = append(cls, "WWWCPE"[rng.Intn(6)])
 			}
 		case x < 19:
-			cls = append(cls, "CPE"[rng.Intn(3)])
+			cls = append(cls, "CPEA"[rng.Intn(4)])
 		default:
 			cls = append(cls, 'R')
 		}
